@@ -183,6 +183,7 @@ func (o Options) Clone() Options {
 			oo.TLSClientConfig.RootCAs = oo.TLSClientConfig.RootCAs.Clone()
 		}
 	}
+	oo.ProxyConnectHeader = o.ProxyConnectHeader.Clone()
 	if o.Dump != nil {
 		oo.Dump = o.Dump.Clone()
 		go oo.Dump.Start()
